@@ -67,6 +67,7 @@ contract(FC + "::CellCycleController.release_all_resources", "C14",
                  "each-tracked-resource-fully-released": "implies(resource_id in self.resources, self.resources[resource_id].owner != ctx.operation_id)",   # tracked lock IS the registered one (alias)
              },
              "property_level": ["each-tracked-resource-fully-released"],
+             "exhaustive": True,      # the per-resource clause speaks about every tracked resource only if no element is skipped
              "modifies": [],
          }},
          ensures={})
